@@ -163,6 +163,30 @@ def run_conc(prop, tier, seed, jobs_spec, own_guards, mc, builds=("rel", "dbg"),
         if os.path.exists(pp):
             ppieces += split_pieces(pp, tr, limit=20000)
         pieces += split_pieces(tr[0], tr)
+    # an execution that logs an absurd number of atomic steps is spinning (a live-lock ended by the driver's alarm): reported as such, not fed to TLC
+    def _longest_execution(path):
+        n = best = 0
+        with open(path) as f:
+            for l in f:
+                if l.startswith('{"e":"reset"'):
+                    best = max(best, n); n = 0
+                else:
+                    n += 1
+        return max(best, n)
+    kept = []
+    for p, tr in spieces:
+        m = _longest_execution(p)
+        if m > 400000:
+            keep = os.path.join(vlib.keepdir(prop), os.path.basename(p) + ".head")
+            with open(p) as f, open(keep, "w") as g:
+                for i, l in enumerate(f):
+                    if i >= 20000:
+                        break
+                    g.write(l)
+            V.violation("NoHang:steps@%s" % tr[3], "%s:1" % keep, "one execution logged %d atomic steps on the delayed-free words: a thread is spinning (live-lock)" % m)
+        else:
+            kept.append((p, tr))
+    spieces = kept
     t0 = time.time()
     stres = vlib.parallel([(lambda p=p: vlib.tlc_tv(p, module="StepTrace", cfg="StepTrace.cfg", timeout=2400, xmx="3g")) for p, _ in spieces], nproc=12)
     log("  TLC validated %d step-trace pieces (%d atomic steps) in %.1fs" % (len(spieces), nstep_events, time.time() - t0))
@@ -179,7 +203,7 @@ def run_conc(prop, tier, seed, jobs_spec, own_guards, mc, builds=("rel", "dbg"),
             if sig in seen:
                 continue
             seen.add(sig)
-            if name in step_guards or name == "Unexplained":
+            if name in step_guards or name in ("Unexplained", "TraceIntact"):
                 keep = os.path.join(vlib.keepdir(prop), os.path.basename(p))
                 shutil.copyfile(p, keep)
                 V.violation(sig, "%s:%d" % (keep, line), "step-level guard %s failed (%s)" % (name, detail))
@@ -205,7 +229,7 @@ def run_conc(prop, tier, seed, jobs_spec, own_guards, mc, builds=("rel", "dbg"),
             if sig in seen:
                 continue
             seen.add(sig)
-            if prop == "C09" or (prop == "C13" and name in ("NoPurgeAfterAbandon", "WonSegmentsSettled", "MarkNotTwice", "FreedNotAbandoned")):
+            if prop == "C09" or name == "TraceIntact" or (prop == "C13" and name in ("NoPurgeAfterAbandon", "WonSegmentsSettled", "MarkNotTwice", "FreedNotAbandoned")):
                 keep = os.path.join(vlib.keepdir(prop), os.path.basename(p))
                 shutil.copyfile(p, keep)
                 V.violation(sig, "%s:%d" % (keep, line), "abandonment protocol guard %s failed (%s)" % (name, detail))
@@ -231,7 +255,7 @@ def run_conc(prop, tier, seed, jobs_spec, own_guards, mc, builds=("rel", "dbg"),
             if sig in seen:
                 continue
             seen.add(sig)
-            if prop == "C18":
+            if prop == "C18" or name == "TraceIntact":
                 keep = os.path.join(vlib.keepdir(prop), os.path.basename(p))
                 shutil.copyfile(p, keep)
                 V.violation(sig, "%s:%d" % (keep, line), "purge schedule guard %s failed (%s)" % (name, detail))
@@ -257,7 +281,7 @@ def run_conc(prop, tier, seed, jobs_spec, own_guards, mc, builds=("rel", "dbg"),
             if sig in seen:
                 continue
             seen.add(sig)
-            if name in own_guards or name == "Unexplained" or (crash_decisive and name == "NoCrash"):
+            if name in own_guards or name in ("Unexplained", "TraceIntact") or (crash_decisive and name == "NoCrash"):
                 keep = os.path.join(vlib.keepdir(prop), os.path.basename(p))
                 shutil.copyfile(p, keep)
                 V.violation(sig, "%s:%d" % (keep, line), "guard %s failed (%s)" % (name, detail))
